@@ -249,3 +249,25 @@ func (w *World) pos(p token.Pos) string {
 	}
 	return fmt.Sprintf("%s:%d", rel, pp.Line)
 }
+
+// methodsOf returns all methods (pointer and value receivers) of the named type, e.g. "(*printer)".
+func (w *World) methodsOf(pkgPath, recv string) []*ssa.Function {
+	sp := w.SSAPkgs[pkgPath]
+	if sp == nil {
+		return nil
+	}
+	tn := strings.Trim(recv, "()*")
+	obj := sp.Pkg.Scope().Lookup(tn)
+	if obj == nil {
+		return nil
+	}
+	var out []*ssa.Function
+	ms := w.Prog.MethodSets.MethodSet(types.NewPointer(obj.Type()))
+	for i := 0; i < ms.Len(); i++ {
+		if fn := w.Prog.MethodValue(ms.At(i)); fn != nil && fn.Blocks != nil && fn.Synthetic == "" {
+			out = append(out, fn)
+		}
+	}
+	sort.Slice(out, func(i, j int) bool { return out[i].Name() < out[j].Name() })
+	return out
+}
